@@ -803,6 +803,26 @@ def static_obligations(chk, pid):
 # ---------------------------------------------------------------------------------------------
 # the check itself, shared by C01 and C02
 # ---------------------------------------------------------------------------------------------
+WALL_CLOCK_STRESS_CODES = {"hang", "futex_wake", "futex_wait"}
+
+
+def wall_scale():
+    """Allowance multiplier for the isolated re-confirmation of a wall-clock trip: >= 5, more when the
+    machine is oversubscribed."""
+    try:
+        over = os.getloadavg()[0] / float(os.cpu_count() or 1)
+    except OSError:
+        over = 1.0
+    return int(5 * max(1.0, over) + 0.999)
+
+
+def note_trip(chk, scenario, what):
+    n = chk.extra.setdefault("wall_clock_trips_not_reproduced", {"count": 0, "scenarios": []})
+    n["count"] += 1
+    n["scenarios"].append({"scenario": scenario, "what": what})
+    core.log("wall-clock trip NOT reproduced in isolated re-runs (evidence note, no verdict): %s: %s" % (scenario, what))
+
+
 class LockCheck:
     """Parameters a property supplies:
     pid, lock ("mutex"/"rwlock"), module prefix ("Mutex"/"RwLock"), binding, PROGS (name -> programs),
@@ -1161,19 +1181,35 @@ class LockCheck:
         runs = []
         import subprocess
         fifo_state = None
-        for sc in scenarios:
+        # The SCHED_FIFO-on-one-cpu runs are OPT-IN (VERIF_FIFO=1): a FIFO task of ANOTHER concurrently
+        # running check (or mutant) that spins on the same cpu starves them completely - even their
+        # SIGKILL - so they cannot be made sound under concurrent evaluation.  The same defect class
+        # (a waiter that never parks) is judged in logical time by the controlled scheduler (unbounded_spin).
+        if os.environ.get("VERIF_FIFO") != "1":
+            if any(sc.endswith("@fifo") for sc in scenarios):
+                fifo_state = "not exercised: opt-in with VERIF_FIFO=1 (unsound when other SCHED_FIFO jobs share the machine)"
+            scenarios = [sc for sc in scenarios if not sc.endswith("@fifo")]
+        todo = [(sc, 1, 0) for sc in scenarios]      # (scenario, allowance scale, re-confirmation round)
+        while todo:
+            sc, scale, rnd = todo.pop(0)
             fifo = sc.endswith("@fifo")
             if fifo:
                 # SCHED_FIFO on ONE cpu: a running thread keeps the cpu until it blocks.  A waiter that
                 # parks lets the holder run and release; a waiter that spins for ever starves it.
-                cmd = ["chrt", "-f", "10", "taskset", "-c", str((os.cpu_count() or 1) - 1), os.path.join(d, "syncprobe"), sc[:-5]]
+                cmd = ["chrt", "-f", "10", "taskset", "-c", str(max(0, (os.cpu_count() or 1) - 2)), os.path.join(d, "syncprobe"), sc[:-5], str(scale)]
                 pr = subprocess.Popen(cmd, stdout=subprocess.PIPE, stderr=subprocess.PIPE, text=True)
                 try:
-                    out, err = pr.communicate(timeout=6)
+                    out, err = pr.communicate(timeout=6 * min(scale, 10))
                     timed_out = False
                 except subprocess.TimeoutExpired:
                     pr.kill()
-                    out, err = pr.communicate()
+                    try:
+                        out, err = pr.communicate(timeout=10)
+                    except subprocess.TimeoutExpired:
+                        # not even the SIGKILL gets through: the cpu is monopolised by somebody else's FIFO job
+                        fifo_state = "not exercised: the launcher was starved by another SCHED_FIFO job on the same cpu"
+                        subprocess.run(["chrt", "-o", "-p", "0", str(pr.pid)], stdout=subprocess.DEVNULL, stderr=subprocess.DEVNULL)
+                        continue
                     timed_out = True
                 if not out.strip():
                     fifo_state = "not exercised: the launcher could not start the probe (rc=%s) %s" % (pr.returncode, err[-200:])
@@ -1186,7 +1222,7 @@ class LockCheck:
                 p.stdout, p.stderr, p.returncode = out, err, (0 if timed_out else pr.returncode)
             else:
                 timed_out = False
-                p = core.run_cmd([os.path.join(d, "syncprobe"), sc], timeout=60, check=False)
+                p = core.run_cmd([os.path.join(d, "syncprobe"), sc, str(scale)], timeout=60 + 12 * scale, check=False)
             evs = []
             for line in p.stdout.splitlines():
                 try:
@@ -1210,18 +1246,58 @@ class LockCheck:
                 # the process died (signal / abort) before its end event: data, not a tool error
                 evs.append({"ev": "panic", "t": 0, "msg": "probe process ended with status %s before its end event" % p.returncode})
                 end = [{"ev": "end", "blocked": [], "done": [], "cut": False}]
-            runs.append({"reset": {"ev": "reset", "run": len(runs), "kind": self.lock, "progs": [["probe:" + sc]]},
-                         "events": [e for e in evs if e["ev"] != "end"], "end": dict(end[0], sched=[]), "probe": sc})
+            run = {"reset": {"ev": "reset", "run": len(runs), "kind": self.lock, "progs": [["probe:" + sc]]},
+                   "events": [e for e in evs if e["ev"] != "end"], "end": dict(end[0], sched=[]), "probe": sc}
+            # "did not return within N seconds" is a wall-clock judgement: it only counts when the same
+            # scenario, run alone with an allowance >= 5x (more under load), shows it again 2 times of 2
+            if end[0].get("blocked"):
+                if rnd == 0:
+                    todo.insert(0, (sc, wall_scale(), 1))
+                    continue
+                if rnd == 1:
+                    todo.insert(0, (sc, wall_scale(), 2))
+                    continue
+                run["reconfirmed"] = "blocked again in 2 of 2 isolated re-runs with allowance x%d" % scale
+            elif rnd > 0:
+                note_trip(chk, "probe/syncp " + sc, "blocking call not back within the limit in the first run, returned in isolated re-run %d (allowance x%d)" % (rnd, scale))
+            runs.append(run)
         chk.extra["no_libc_probe"] = {"scenarios": list(scenarios), "runs": len(runs), "sched_fifo_one_cpu": fifo_state}
         core.log("no-libc probe: %d scenarios run" % len(runs))
         return runs
 
     def stress(self, chk, bindir, spec, key="real_futex_stress"):
+        """Wall-clock verdicts (hang watchdog, 'the woken waiter did not come back in time') only count
+        when two isolated re-runs with allowances >= 5x show the same rejection again."""
+        first = self.stress_once(chk, bindir, spec, key)
+        wall = [b for b in first if b[0]["code"] in WALL_CLOCK_STRESS_CODES]
+        rest = [b for b in first if b[0]["code"] not in WALL_CLOCK_STRESS_CODES]
+        confirmed = []
+        if wall:
+            codes = {b[0]["code"] for b in wall}
+            again = []
+            for rnd in (1, 2):
+                sc = wall_scale()
+                spec2 = dict(spec, watchdog_s=20.0 * sc, wait_scale=sc, scenarios=bool(codes & {"futex_wake", "futex_wait"}) or spec.get("scenarios", True))
+                r = self.stress_once(chk, bindir, spec2, key + "_reconfirm%d" % rnd)
+                again.append({b[0]["code"] for b in r})
+                if not (codes & again[-1]):
+                    break
+            for b in wall:
+                if len(again) == 2 and all(b[0]["code"] in a for a in again):
+                    confirmed.append(b)
+                else:
+                    note_trip(chk, "%s real-futex stress" % self.lock, "%s in the first run, not in %d isolated re-run(s)" % (b[0]["code"], len(again)))
+        for b, ev, sp in rest + confirmed:
+            chk.violate({"lock": self.lock, "code": "real_" + b["code"], "op": ev.get("sc", ev["ev"])},
+                        "%s on the real kernel futex: %s at %s" % (self.lock, b["code"], json.dumps(ev)),
+                        {"mode": "real", "spec": sp, "event": ev, "note": "free-running, not deterministic: re-run `sched real` with this spec"})
+
+    def stress_once(self, chk, bindir, spec, key):
         path = os.path.join(chk.work, "stress.json")
         with open(path, "w") as f:
             json.dump(spec, f)
         t0 = time.time()
-        p = core.run_cmd([os.path.join(bindir, "sched"), "real", path], timeout=1500, check=False)
+        p = core.run_cmd([os.path.join(bindir, "sched"), "real", path], timeout=1500 + int(20 * spec.get("watchdog_s", 20)), check=False)
         if p.returncode != 0:
             # a crash of the free-running code under test is data, but the driver must say so itself
             raise core.ToolError("sched real failed rc=%s: %s" % (p.returncode, p.stderr[-1500:]))
@@ -1253,14 +1329,13 @@ class LockCheck:
         if not j["bad"]:
             chk.traces += 1
         seen = set()
+        out = []
         for b in j["bad"]:
             if b["code"] in seen:
                 continue
             seen.add(b["code"])
-            ev = (rest + secs + end)[b["line"] - 1]
-            chk.violate({"lock": self.lock, "code": "real_" + b["code"], "op": ev.get("sc", ev["ev"])},
-                        "%s on the real kernel futex: %s at %s" % (self.lock, b["code"], json.dumps(ev)),
-                        {"mode": "real", "spec": spec, "event": ev, "note": "free-running, not deterministic: re-run `sched real` with this spec"})
+            out.append((b, (rest + secs + end)[b["line"] - 1], spec))
+        return out
 
     def selftest(self, tour_cfg, seeded=True):
         """Anti-vacuity (DESIGN.md 3.3): (1) corrupted copies of accepted traces must be rejected by the
